@@ -211,6 +211,10 @@ def run(ctx):
 
     # ---- survival across failed insert / union: the C12 rule set, applied here because a fingerprint lost by a botched
     # rollback is a false negative for an element inserted earlier
+    # "after a.union(&b) returns Ok, every element present in a or in b is reported present by a": the transfer loops of the cuckoo
+    # and quotient unions must carry every stored fingerprint over, under its own bucket / quotient (C06's transfer rules)
+    from .C06 import union_transfer_rules
+    union_transfer_rules(ctx)
     from .C12 import run_restore_rules
     run_restore_rules(ctx)
 
